@@ -192,7 +192,8 @@ PROPS = {
     'C07': dict(
         title='Filter evaluation follows the Haystack filter semantics',
         verus=[('u_resolver', [r'^Dict::resolve_for$', r'^Path::', r'^lemma_walk_null_stays$', r'^Value::is_null$', r'^Grid::filter_all$', r'^Grid::filter$']),
-               ('u_feval', [r'^(Filter|Or|And|Term|Parens|Has|Missing|Cmp)::eval$', r'^lemma_all_terms_false$', r'^lemma_any_and_true$', r'^Value::has_value$', r'^ev_|^any_and$|^all_terms$'])],
+               ('u_feval', [r'^(Filter|Or|And|Term|Parens|Has|Missing|Cmp)::eval$', r'^lemma_all_terms_false$', r'^lemma_any_and_true$', r'^Value::has_value$', r'^ev_|^any_and$|^all_terms$']),
+               ('u_fgram', [r'^Parser::(parse|parse_or|parse_and|parse_term|parse_parens|parse_nested_parens)$', r'^lemma_join_'])],
         kani=[dict(harness='k_cmp_eq', klass='complete', schema='raw', family='filter-cmp:eq', target='filter::nodes::cmp_values(Eq)', timeout=400),
               dict(harness='k_cmp_ne', klass='complete', schema='raw', family='filter-cmp:ne', target='filter::nodes::cmp_values(NotEq)', timeout=400),
               dict(harness='k_cmp_lt', klass='complete', schema='raw', family='filter-cmp:lt', target='filter::nodes::cmp_values(LessThan)', timeout=400),
@@ -207,11 +208,13 @@ PROPS = {
                     '< <= > >= hold only for a value of the literal\'s kind ordered as stated; == iff equal; != iff a value that is not equal. '
                     'Proof (Verus, unit u_feval, every filter tree and every context) of the evaluator itself against a recursive specification written from the filter language: Or::eval holds iff some operand holds, And::eval iff all do, Parens::eval is its inner or, tag / not tag test whether the resolved value is non-Null / Null, and a comparison is the kernel applied to the resolved value and the literal (Iterator::any / all rewritten to index loops by rule R23; ^symbol, *== and relation terms are uninterpreted functions of the term and the context). Proof (Verus, all dicts and paths) of path resolution by the default resolver: a->b->c looks each segment up in the dict the '
                     'previous segments resolve to, and a missing tag, a Null or a non-dict value anywhere along the path gives Null; and of '
-                    'Grid::filter_all: it returns exactly the rows for which the filter holds, in order.'),
+                    'Grid::filter_all: it returns exactly the rows for which the filter holds, in order. Precedence and grouping (Verus, unit u_fgram, every input): '
+                    'the real parse_or / parse_and / parse_term / parse_parens consume exactly the token spelling of the tree they return -- an or of ands of terms, '
+                    'a group between parentheses -- so the tree that is evaluated has `and` binding tighter than `or` and parentheses grouping.'),
         not_decided=('caller-supplied resolvers and Ref chains; '
                      '^symbol and relationship terms (namespace, C13); string/ref/date literals and list tags in the kernel (heap values '
                      'make CBMC runs unbounded in time: a two-element list harness did not finish in 20 min); '
-                     'precedence is a parser matter (C08). NaN literals are excluded (not expressible in filter text; derive(PartialOrd) '
+                     'a NaN tag value in the kernel (left to the enumerator enum:filter-eval, which has NaN tags and lists holding NaN). NaN literals are excluded (not expressible in filter text; derive(PartialOrd) '
                      'orders NaN differently on the repository toolchain and on Kani\'s nightly).'),
         technique='contract-based deductive verification: Kani complete symbolic harnesses on the real comparison kernel',
     ),
